@@ -353,6 +353,9 @@ def _replay_one(body, inputs) -> Outcome:
     if (body.get("extra") or {}).get("layout") == "F":
         # the failure was observed with the array arguments in Fortran (column-major) order: JSON does not carry the layout
         inputs = {k: (np.asfortranarray(v) if isinstance(v, np.ndarray) and v.ndim >= 2 else v) for k, v in inputs.items()}
+    if (body.get("extra") or {}).get("layout") == "BE":
+        inputs = {k: (v.astype(v.dtype.newbyteorder(">")) if isinstance(v, np.ndarray) and v.dtype.kind in "fi" and v.dtype.itemsize > 1 else v)
+                  for k, v in inputs.items()}
     if body["kind"] == "contract":
         load_all()
         return run_contract(CONTRACTS[body["where"]], inputs)
